@@ -226,7 +226,7 @@ func Grammar() map[string]node {
 		act(seq(opt(lit("-")), ref("IntegerOrFloat"), and(ref("AfterNumbers"))), func(c *ctx) (any, error) { return c.text, nil }),
 		seq(opt(lit("-")), ref("IntegerOrFloat"), not(ref("AfterNumbers")), pred("Invalid number literal")),
 	)
-	g["AfterNumbers"] = and(alt(ref("_"), ref("EOF"), lit(")")))
+	g["AfterNumbers"] = and(alt(ref("_"), ref("EOF"), lit(")"), lit("}")))
 	g["IntegerOrFloat"] = seq(alt(lit("0"), seq(class(func(r rune) bool { return r >= '1' && r <= '9' }), star(class(isDigit)))), opt(seq(lit("."), plus(class(isDigit)))))
 	g["StringLiteral"] = alt(
 		act(alt(seq(lit("`"), star(ref("RawStringChar")), lit("`")), seq(lit(`"`), star(ref("DoubleStringChar")), lit(`"`))), func(c *ctx) (any, error) {
